@@ -89,6 +89,10 @@ def worker(payload):
         res["premises_hold_incl_window_bound"] = int(not failed)
         res["water_table_runs"] = int(int(m._param_struct.water_table) == 1)
         res["premise_failures"] = sorted(set(f.split(".")[0] if f.startswith("crop") or f.startswith("fallow") else f for f in failed))
+        hi = hyp_check.check_crop_hi(m)
+        res["crop_rows_premises_checked"] = 1
+        res["crop_rows_premises_all_hold"] = int(not hi and res["premises_all_hold"])
+        res["premise_failures"] += sorted(set("ParHIOK." + f.split(".", 1)[1] for f in hi))
     except Exception:
         pass
     # every third simulation is run by the model as a SEQUENCE OF CALLS run_model(num_steps = k) (run_steps_c) with a random
